@@ -155,6 +155,9 @@ func c19Exec(op string) string {
 		os.WriteFile(file, []byte(strings.Repeat("<old>previous content</old>{\"old\":1}\n", 400)), 0o644)
 	}
 	notes := []string{}
+	// every indent string, the empty one included (XmlFileIndent(f, "", "") still writes what
+	// XmlIndent("", "") returns for each Map)
+	ind := []string{"  ", "", "\t", " "}[hashStr(strings.Join(c.toks, " "))%4]
 	var err error
 	// what each Map's own encoding decodes to
 	var want, texts []string
@@ -163,7 +166,7 @@ func c19Exec(op string) string {
 		case "xml":
 			var x []byte
 			if indent {
-				x, err = m.XmlIndent("", "  ")
+				x, err = m.XmlIndent("", ind)
 			} else {
 				x, err = m.Xml()
 			}
@@ -180,7 +183,7 @@ func c19Exec(op string) string {
 			want = append(want, enc(map[string]interface{}(m)))
 			j, _ := m.Json()
 			if indent {
-				j, _ = m.JsonIndent("", "  ")
+				j, _ = m.JsonIndent("", ind)
 			}
 			texts = append(texts, string(j))
 		}
@@ -188,13 +191,13 @@ func c19Exec(op string) string {
 	switch kind {
 	case "xml":
 		if indent {
-			err = ms.XmlFileIndent(file, "", "  ")
+			err = ms.XmlFileIndent(file, "", ind)
 		} else {
 			err = ms.XmlFile(file)
 		}
 	case "json":
 		if indent {
-			err = ms.JsonFileIndent(file, "", "  ")
+			err = ms.JsonFileIndent(file, "", ind)
 		} else {
 			err = ms.JsonFile(file)
 		}
